@@ -21,6 +21,8 @@ F_CLS = 'andes/models/synchronous/gencls.py'
 
 def own_obligations(pack):
     ss = U.system()
+    # line switching: what a Toggle changes (u) must reach the residuals, i.e. no constant read by them may have u baked in
+    U.status_independence(pack, 'C07', ss, 'Line', 'andes/models/line/line.py', replay=U.replay_line_closing)
     g = ss.GENCLS
     # ---- 1, 2: swing equation
     cases = [
